@@ -344,3 +344,204 @@ Section History.
                Abs h' (spec_run (mkAS [] 1%positive 0%nat) ops).
   Proof. apply history_sim, Abs_empty. Qed.
 End History.
+
+(** * the ownership rules as a BOOLEAN on the abstract state (for generators and non-vacuity) *)
+Definition movableb (F : forest) (p x : positive) : bool :=
+  negb (bool_decide (p = x)) &&
+  match find_root x F with
+  | Some _ => match find_tree p (remove_root x F) with Some n => negb (is_ref (tdata n)) | None => false end
+  | None => false
+  end.
+Definition plainb (F : forest) (a : ptr) : bool :=
+  match a with
+  | None => true
+  | Some p => match find_tree p F with Some n => negb (is_ref (tdata n)) | None => false end
+  end.
+Definition is_none {A} (o : option A) : bool := match o with None => true | Some _ => false end.
+Definition is_nil {A} (l : list A) : bool := match l with [] => true | _ => false end.
+
+Definition replace_acceptedb (F : forest) (p : positive) (it rp : ptr) : bool :=
+  match it, rp with
+  | Some y, Some r =>
+      match find_root r F with
+      | Some _ => match find_tree p (remove_root r F) with
+                  | Some n => bool_decide (y ∈ cids n)
+                  | None => false end
+      | None => false
+      end
+  | _, _ => false
+  end.
+
+Definition pre_okb (S : astate) (o : op) : bool :=
+  let F := as_forest S in
+  match o with
+  | OCreate _ => true
+  | OAdd a i =>
+      match a, i with
+      | Some p, Some x => bool_decide (p = x) || movableb F p x
+      | _, _ => true
+      end
+  | ODetach pa it =>
+      match pa, it with
+      | Some p, Some x =>
+          match find_tree p F with
+          | Some n => bool_decide (x ∈ cids n) || (negb (is_ref (tdata n)) && bool_decide (x ∈ roots F))
+          | None => false
+          end
+      | _, _ => true
+      end
+  | ODetachIdx a w => match a with Some _ => plainb F a | None => false end
+  | OInsert a w n =>
+      (w <? 0) ||
+      match n with
+      | None => true
+      | Some x => bool_decide (a = Some x) || match a with Some p => movableb F p x | None => false end
+      end
+  | OReplace pa it rp =>
+      match pa with
+      | None => true
+      | Some p =>
+          match find_tree p F with
+          | Some n => negb (is_ref (tdata n)) &&
+                      (is_nil (tchildren n) || is_none it || is_none rp || bool_decide (it = rp))
+          | None => false
+          end || replace_acceptedb F p it rp
+      end
+  | OReplaceIdx a w n =>
+      (0 <=? w) &&
+      match a, n with
+      | Some p, Some r =>
+          match find_root r F with
+          | Some _ => match find_tree p (remove_root r F) with
+                      | Some n => bool_decide (Z.to_nat w < length (tchildren n))%nat
+                      | None => false end
+          | None => false
+          end
+      | _, _ => false
+      end
+  | ODelete it => match it with None => true | Some x => bool_decide (x ∈ roots F) end
+  | ODeleteIdx a w =>
+      (0 <=? w) &&
+      match a with
+      | Some p => match find_tree p F with
+                  | Some n => negb (is_ref (tdata n)) && bool_decide (Z.to_nat w < length (tchildren n))%nat
+                  | None => false end
+      | None => false
+      end
+  | OSize a => plainb F a
+  | OGet a i => plainb F a
+  end.
+
+Lemma find_tree_shape p F n : find_tree p F = Some n -> n = T p (tdata n) (tchildren n).
+Proof. intros H. apply find_tree_Some in H as [_ <-]. by destruct n. Qed.
+
+Lemma find_root_is_Some x F : x ∈ roots F -> is_Some (find_root x F).
+Proof.
+  intros H. apply elem_of_list_fmap in H as (t & -> & Ht).
+  destruct (find_root (tid t) F) eqn:E; [eauto|]. exfalso.
+  unfold find_root in E. apply elem_of_list_In in Ht.
+  pose proof (find_none _ _ E _ Ht) as H. cbn in H. by apply bool_decide_eq_false in H.
+Qed.
+
+Lemma movableb_sound F p x : movableb F p x = true -> movable_into F p x.
+Proof.
+  unfold movableb. intros H. apply andb_true_iff in H as [H1 H2].
+  apply negb_true_iff, bool_decide_eq_false in H1. split; [done|].
+  destruct (find_root x F) as [tx|] eqn:Hx; [|done].
+  destruct (find_tree p (remove_root x F)) as [n|] eqn:Hp; [|done].
+  apply negb_true_iff in H2. exists tx, (tdata n), (tchildren n). split_and!; [done| |done].
+  by rewrite <- (find_tree_shape _ _ _ Hp).
+Qed.
+Lemma plainb_sound F a : plainb F a = true -> plain_container F a.
+Proof.
+  unfold plainb, plain_container. destruct a as [p|]; [|by left]. intros H. right.
+  destruct (find_tree p F) as [n|] eqn:Hp; [|done]. apply negb_true_iff in H.
+  exists p, (tdata n), (tchildren n). split_and!; [done| |done]. by rewrite <- (find_tree_shape _ _ _ Hp).
+Qed.
+
+Lemma pre_okb_sound S o : pre_okb S o = true -> pre_ok S o.
+Proof.
+  destruct S as [F nx rq]. destruct o as [ty|a i|pa it|a w|a w n|pa it rp|a w n|it|a w|a|a i];
+    cbn [pre_okb pre_ok as_forest]; intros H.
+  - done.
+  - destruct a as [p|], i as [x|]; try (left; auto; fail).
+    apply orb_true_iff in H as [H|H].
+    + apply bool_decide_eq_true in H. subst. left. auto.
+    + right. exists p, x. split_and!; [done..|by apply movableb_sound].
+  - destruct pa as [p|], it as [x|]; try (left; auto; fail). right.
+    destruct (find_tree p F) as [n|] eqn:Hp; [|done].
+    exists p, x, (tdata n), (tchildren n). split_and!; [done|done|by rewrite <- (find_tree_shape _ _ _ Hp)|].
+    apply orb_true_iff in H as [H|H].
+    + left. apply bool_decide_eq_true in H. unfold cids in H. apply elem_of_list_fmap in H as (tx & -> & Htx).
+      apply elem_of_list_lookup in Htx as [k Hk]. eauto.
+    + right. apply andb_true_iff in H as [H1 H2]. apply negb_true_iff in H1. by apply bool_decide_eq_true in H2.
+  - destruct a as [p|]; [|done]. apply plainb_sound in H as [?|(p' & d & cs & Heq & Hp & Hr)]; [done|].
+    injection Heq as <-. by exists p, d, cs.
+  - apply orb_true_iff in H as [H|H]; [left; left; by apply Z.ltb_lt|].
+    destruct n as [x|]; [|left; auto]. apply orb_true_iff in H as [H|H].
+    + apply bool_decide_eq_true in H. left. auto.
+    + destruct a as [p|]; [|done]. destruct (Z.ltb_spec w 0); [left; auto|].
+      right. exists p, x. split_and!; [done..|by apply movableb_sound].
+  - destruct pa as [p|]; [|by left]. right. apply orb_true_iff in H as [H|H].
+    + left. destruct (find_tree p F) as [n|] eqn:Hp; [|done]. apply andb_true_iff in H as [H1 H2].
+      apply negb_true_iff in H1. exists p, (tdata n), (tchildren n).
+      split_and!; [done|by rewrite <- (find_tree_shape _ _ _ Hp)|done|].
+      destruct (tchildren n) as [|c cs'] eqn:Ecs; [by left|]. right.
+      destruct it as [y|]; [|by left]. right. destruct rp as [r|]; [|by left]. right.
+      cbn in H2. apply bool_decide_eq_true in H2. done.
+    + right. unfold replace_acceptedb in H. destruct it as [y|], rp as [r|]; try done.
+      destruct (find_root r F) as [tr|] eqn:Hr; [|done].
+      destruct (find_tree p (remove_root r F)) as [n|] eqn:Hp; [|done].
+      apply bool_decide_eq_true in H. unfold cids in H. apply elem_of_list_fmap in H as (ty & -> & Hty).
+      apply elem_of_list_lookup in Hty as [k Hk].
+      exists p, (tid ty), r, tr, ty, (tdata n), (tchildren n), k.
+      split_and!; try done. by rewrite <- (find_tree_shape _ _ _ Hp).
+  - apply andb_true_iff in H as [Hw H]. apply Z.leb_le in Hw.
+    destruct a as [p|], n as [r|]; try done.
+    destruct (find_root r F) as [tr|] eqn:Hr; [|done].
+    destruct (find_tree p (remove_root r F)) as [nd|] eqn:Hp; [|done].
+    apply bool_decide_eq_true in H. apply lookup_lt_is_Some_2 in H as [ty Hty].
+    exists p, r, tr, ty, (tdata nd), (tchildren nd). split_and!; try done. by rewrite <- (find_tree_shape _ _ _ Hp).
+  - destruct it as [x|]; [|by left]. right. apply bool_decide_eq_true in H.
+    destruct (find_root_is_Some _ _ H) as [tx Htx]. eauto.
+  - apply andb_true_iff in H as [Hw H]. apply Z.leb_le in Hw. destruct a as [p|]; [|done].
+    destruct (find_tree p F) as [n|] eqn:Hp; [|done]. apply andb_true_iff in H as [H1 H2].
+    apply negb_true_iff in H1. apply bool_decide_eq_true in H2. apply lookup_lt_is_Some_2 in H2 as [tx Htx].
+    exists p, (tdata n), (tchildren n), tx. split_and!; try done. by rewrite <- (find_tree_shape _ _ _ Hp).
+  - by apply plainb_sound.
+  - by apply plainb_sound.
+Qed.
+
+Section B.
+  Variable oracle : nat -> bool.
+  Fixpoint pre_ok_allb (S : astate) (ops : list op) : bool :=
+    match ops with [] => true | o :: r => pre_okb S o && pre_ok_allb (spec_step oracle S o).1 r end.
+  Lemma pre_ok_allb_sound ops : forall S, pre_ok_allb S ops = true -> pre_ok_all oracle S ops.
+  Proof.
+    induction ops as [|o r IH]; intros S H; [done|]. cbn in H. apply andb_true_iff in H as [H1 H2].
+    split; [by apply pre_okb_sound|by apply IH].
+  Qed.
+End B.
+
+(** * non-vacuity: a concrete history that obeys the rules *)
+Definition example_ops : list op :=
+  [OCreate 32; OCreate 2; OCreate 4; OAdd (Some 1) (Some 2); OAdd (Some 1) (Some 3); OSize (Some 1);
+   OGet (Some 1) 1; ODetachIdx (Some 1) 0; OInsert (Some 1) 0 (Some 2); OCreate 1;
+   OReplace (Some 1) (Some 3) (Some 4); OSize (Some 1); OGet (Some 1) 1; ODeleteIdx (Some 1) 0;
+   ODetach (Some 1) (Some 4); OAdd (Some 1) (Some 4); ODelete (Some 1)]%positive.
+
+Lemma example_ops_ok : pre_ok_all (fun _ => false) (mkAS [] 1%positive 0%nat) example_ops.
+Proof. apply pre_ok_allb_sound. vm_compute. reflexivity. Qed.
+
+Lemma example_results :
+  spec_results (fun _ => false) (mkAS [] 1%positive 0%nat) example_ops =
+  [RPtr (Some 1); RPtr (Some 2); RPtr (Some 3); RBool true; RBool true; RInt 2; RPtr (Some 3);
+   RPtr (Some 2); RBool true; RPtr (Some 4); RBool true; RInt 2; RPtr (Some 4); RUnit;
+   RPtr (Some 4); RBool true; RUnit]%positive.
+Proof. vm_compute. reflexivity. Qed.
+
+Corollary example_history :
+  exists h', run_ops (fun _ => false) example_ops empty_heap =
+               Ret (spec_results (fun _ => false) (mkAS [] 1%positive 0%nat) example_ops, h') /\
+             Abs h' (spec_run (fun _ => false) (mkAS [] 1%positive 0%nat) example_ops).
+Proof. apply history_from_empty, example_ops_ok. Qed.
